@@ -111,6 +111,9 @@ def case(rep, drv, rnd, i, tier):
                 rep.violation(dict(payload, kind='exit status 0 although a source does not compile'))
                 return
             bad = [l for l in lib if l[0] != 'ok'][0]
+            if broken and bad[1] != 'CompilerError':
+                rep.violation(dict(payload, kind='a syntax error is not reported as a CompilerError with file name and position but as %s: %s' % (bad[1], bad[2][:200])))
+                return
             if bad[1] == 'CompilerError':
                 # file:line:col of the library's error must be in the CLI's message
                 # (the position is taken from the exception object, not from its text: a message that
